@@ -29,7 +29,7 @@ quick.append(job("c11.ols", secs=90, qto=400, allow=AL, n=4, p=2, icpt=1, div=4)
 # penalty = pen/8, l1_ratio = l1/4
 for n in (2, 3):
     for pen, l1 in ((0, 2), (2, 0), (2, 4), (8, 2), (32, 4)):
-        q = 600 if n == 2 else 400
+        q = 600 if n == 2 else 800
         # no intercept: everything must hold whatever the offsets of the features
         quick.append(job("c11.enet", secs=60, qto=q, allow=AL, n=n, p=1, icpt=0, pen=pen, l1=l1, ob=ALL, div=2))
         # intercept, centred features: everything must hold
@@ -59,16 +59,16 @@ quick.append(job("c11.mtenet", secs=30, qto=600, allow=AL, n=2, icpt=1, centred=
 
 thorough = list(quick)
 for n, p, icpt in ((3, 1, 1), (4, 1, 1), (3, 2, 0), (4, 2, 0), (3, 2, 1), (4, 2, 1)):
-    thorough.append(job("c11.ols", secs=400, jobs=4, qto=1500, allow=AL, n=n, p=p, icpt=icpt, div=8))
+    thorough.append(job("c11.ols", secs=300, jobs=2, qto=2000, allow=AL, n=n, p=p, icpt=icpt, div=8))
 for n in (2, 3, 4):
     for pen in (0, 1, 16):
         for l1 in (0, 1, 4):
-            thorough.append(job("c11.enet", secs=240, qto=2000, allow=AL, n=n, p=1, icpt=0, pen=pen, l1=l1, ob=ALL, div=6))
-            thorough.append(job("c11.enet", secs=240, qto=2000, allow=AL, n=n, p=1, icpt=1, centred=1, pen=pen, l1=l1, ob=ALL, div=6))
-            thorough.append(job("c11.enet", secs=240, qto=2000, allow=AL, n=n, p=1, icpt=1, centred=0, pen=pen, l1=l1, ob=KKT_W | ZERO | GAP_SIGN, div=6))
+            thorough.append(job("c11.enet", secs=200, qto=2000, allow=AL, n=n, p=1, icpt=0, pen=pen, l1=l1, ob=ALL, div=6))
+            thorough.append(job("c11.enet", secs=200, qto=2000, allow=AL, n=n, p=1, icpt=1, centred=1, pen=pen, l1=l1, ob=ALL, div=6))
+            thorough.append(job("c11.enet", secs=200, qto=2000, allow=AL, n=n, p=1, icpt=1, centred=0, pen=pen, l1=l1, ob=KKT_W | ZERO | GAP_SIGN, div=6))
 for pen, l1 in ((0, 2), (2, 2), (8, 4)):
     for icpt, centred in ((0, 0), (1, 1)):
-        thorough.append(job("c11.enet", secs=400, jobs=4, qto=1500, allow=AL, n=3, p=2, icpt=icpt, centred=centred, pen=pen, l1=l1, iters=6, ob=ALL, div=8))
+        thorough.append(job("c11.enet", secs=300, jobs=2, qto=2000, allow=AL, n=3, p=2, icpt=icpt, centred=centred, pen=pen, l1=l1, iters=6, ob=ALL, div=8))
 for n in (2, 3):
     for pen, l1 in ((2, 4), (8, 2), (1, 1), (16, 4)):
         thorough.append(job("c11.mtenet", secs=200, qto=2000, allow=AL, n=n, icpt=0, pen=pen, l1=l1, ob=MT_ALL, div=6))
